@@ -5,6 +5,9 @@ FAMILIES = [
     {"name": "antefee", "family": "antefee", "group": "ante", "driver": "drv_ante", "n_quick": 20000, "n_thorough": 150000, "seeds_thorough": 3},
     {"name": "antecom", "family": "antecom", "group": "ante", "driver": "drv_ante", "n_quick": 15000, "n_thorough": 100000, "seeds_thorough": 3},
     {"name": "antetx", "family": "antetx", "group": "ante", "driver": "drv_ante", "n_quick": 1500, "n_thorough": 12000, "seeds_thorough": 3},
+    # genesis transactions ARE inside the property's quantifier ("every transaction the chain executes"): x/genutil delivers every
+    # gentx through BaseApp.DeliverTx, the full ante chain runs at height 0, and genutil does not restrict what a gentx contains
+    {"name": "antegen", "family": "antegen", "group": "ante", "driver": "drv_ante", "n_quick": 1, "n_thorough": 1, "seeds_thorough": 1},
 ]
 CHK_PREDS = ["c19."]
 RULE = ("antefee: the real AdjustGasPriceDecorator.AnteHandle on transactions of 0-4 top-level messages drawn from all 89 message types the app "
@@ -18,6 +21,9 @@ RULE = ("antefee: the real AdjustGasPriceDecorator.AnteHandle on transactions of
         "transaction (one of them wrapped) with the sum at the boundary; a quarter of the transactions: a fresh account creates its validator (self-delegation a) and delegates b to it in the "
         "same transaction (direct / nested), a+b at the 6.6% boundary, b alone far below; executed effects observed. antecom also: one transaction in six creates a validator (three fresh "
         "addresses, upper- or lower-case) and then delegates / redelegates to it, directly or nested, with value + amount around the boundary. "
+        "antegen: 22 chains started through the real InitChain from genesis files carrying gentxs (x/genutil -> DeliverTx at height 0): MsgCreateValidator at 1%, 5%-1e-18, 5%, 10% commission, "
+        "direct and wrapped once / twice in MsgExec; MsgSend with fee 0 / 0.1 rowan - 1 / 0.1 rowan, direct and wrapped; 20 gentx validators of 5% each plus a gentx MsgDelegate 1e13 below / above the 6.6% "
+        "boundary, direct and wrapped twice. InitChain panicking = refused; otherwise the created validator's commission, the fee, the target's tokens/total are judged by the same predicates. "
         "non-trivial = distinct operation line (distinct transaction and state).")
 TRUSTED_BASE = [
     "Lean 4.33.0 kernel; axioms propext, Classical.choice, Quot.sound (audited per theorem on every run)",
